@@ -880,7 +880,7 @@ package http2
 //@ ensures trailers: old(strm.headersFinished) && !(hasflag(fr.flags, 1) && hasflag(fr.flags, 4)) ==> r0 != nil
 
 //@ func (*serverConn).handleFrame
-//@ props C08 C06 C14 C13 C09 C17
+//@ props C08 C06 C14 C13 C09 C17 C20 C01
 //@ requires args: sc != nil && strm != nil && fr != nil && strm.ctx != nil
 //@ requires typed: 0 <= fr.kind && fr.kind <= 9 && frameTypeOK(fr.fr, fr.kind) && fr.length >= 0 && fr.length <= 16777215
 //@ requires dec: hpackOK(sc.dec)
